@@ -261,6 +261,14 @@ func bvBin(op string, a, b *Term) *Term {
 		panic(fmt.Sprintf("bv op %s sort mismatch %v %v", op, a.S, b.S))
 	}
 	w := a.S.W
+	// narrow unsigned division/remainder of a zero-extended value by a small
+	// constant: urem(zext(x), c) = zext(urem(x, c)) when c fits x's width
+	if (op == "bvudiv" || op == "bvurem") && a.Op == "zext" && b.IsConst() && b.C.Sign() > 0 {
+		in := a.Args[0]
+		if b.C.BitLen() <= in.S.W {
+			return ZExt(bvBin(op, in, BVC(in.S.W, b.C)), w)
+		}
+	}
 	if a.IsConst() && b.IsConst() {
 		x, y := a.C, b.C
 		r := new(big.Int)
